@@ -6,7 +6,7 @@ import ast
 
 from ..model import (AnalysisError, FunctionInfo, expand_aug, dotted, norm_text,
                      names_read, const_value, is_none)
-from ..cfg import structural_guards
+from ..cfg import structural_guards, canon_guard
 from ..rules import roles
 from ..rules import shiftpoly
 from ..rules.shiftpoly import SP
@@ -430,10 +430,10 @@ def _missing_variable(prog, fn):
     probs.append('fixed missing output is %s' % norm_text(fixed[0].value)[:50])
   gf = structural_guards(fn.node, fixed[0]) or []
   gl = structural_guards(fn.node, learned[0]) or []
-  tf_ = [(norm_text(t), p) for t, p in gf]
-  tl = [(norm_text(t), p) for t, p in gl]
-  if ('self.missing_output_value is not None', True) not in tf_ or \
-      ('self.missing_output_value is not None', False) not in tl:
+  tf_ = [canon_guard(t, p) for t, p in gf]
+  tl = [canon_guard(t, p) for t, p in gl]
+  if ('self.missing_output_value is None', False) not in tf_ or \
+      ('self.missing_output_value is None', True) not in tl:
     probs.append('the fixed missing output must be used exactly when '
                  'missing_output_value is given (guards: fixed %s, learned '
                  '%s)' % (tf_, tl))
